@@ -2,7 +2,7 @@
 # tools/confirm_seed.sh <ID>  — independently confirm a sub-agent's seeded change in its scratch worktree /tmp/mut/<ID>:
 #  (1) patch applies to a clean checkout, (2) full existing suite passes with it, (3) demo fails with it, (4) demo passes without it.
 set -u
-id="$1"; wt=/tmp/mut/$id; out=/tmp/mutout/$id
+id="$1"; r="${2:-}"; wt=/tmp/mut$r/$id; out=/tmp/mutout$r/$id
 cd "$wt" || exit 2
 log=$out/confirm.log; : > $log
 git checkout -q -- . ; rm -f tests/demo_$id.rs
